@@ -219,9 +219,9 @@ Inductive hop := HSetVar (n : list Z) (v : value) | HSetFun (n : list Z) (b : be
 Definition bind (h : host) (o : hop) : host :=
   match o with
   | HSetVar n v => {| h_vars := (n, v) :: h_vars h; h_funs := h_funs h; h_cells := h_cells h; h_ranges := h_ranges h;
-                      h_registry := h_registry h; h_varset := h_varset h; h_funset := h_funset h |}
+                      h_registry := h_registry h; h_varset := h_varset h; h_funset := h_funset h; h_oracle := h_oracle h |}
   | HSetFun n b => {| h_vars := h_vars h; h_funs := (n, b) :: h_funs h; h_cells := h_cells h; h_ranges := h_ranges h;
-                      h_registry := h_registry h; h_varset := h_varset h; h_funset := h_funset h |}
+                      h_registry := h_registry h; h_varset := h_varset h; h_funset := h_funset h; h_oracle := h_oracle h |}
   | HParse _ => h
   end.
 Definition token_eqb (a b : token) : bool := (tk a =? tk b)%Z && list_eqb (lexeme a) (lexeme b).
